@@ -27,6 +27,10 @@ def setter_target(rng, name="Setter"):
     ]
     consts = [lo, hi, T, T + 1]
     if rng.random() < 0.5:
+        # a function that can only store small values, listed first: sequences through it are the first candidates for the assertion in check(),
+        # and they are infeasible
+        fns.insert(0, Fn("aLow", [("x", U)], arg(0) + [3, "GT", "ISZERO", "@no", "JUMPI"] + arg(0) + [0, "SSTORE", "STOP", ":no", 0, 0, "REVERT"]))  # require(x < 3); s = x
+    if rng.random() < 0.5:
         # assertion inside a target, reachable only after a particular value was stored: check() panics iff s == magic
         magic = rng.choice([3, T + 1])
         fns.append(Fn("check", [], [0, "SLOAD", magic, "EQ", "@bad", "JUMPI", "STOP", ":bad"] + panic(1)))
@@ -107,8 +111,14 @@ def factory_targets(rng):
     return factory, dict(kind="factory", children=[childA, childB])
 
 
+def selftarget_target(rng, name="unused"):
+    """the test contract itself is the target (targetContract(address(this))): its own state-changing functions are called, except the reserved
+    ones (setUp(), test*/check*/prove*/invariant* functions, afterInvariant())"""
+    return None, dict(kind="selftarget", consts=[9])
+
+
 KINDS = {"counter": invgen.counter_target, "flags": invgen.flags_target, "owner": invgen.owner_target, "setter": setter_target, "clock": clock_target,
-         "vault": vault_target, "arr": arr_target, "router": router_target, "factory": lambda rng: factory_targets(rng)}
+         "vault": vault_target, "arr": arr_target, "router": router_target, "factory": lambda rng: factory_targets(rng), "selftarget": selftarget_target}
 
 
 class Case2:
@@ -130,6 +140,8 @@ def inv(name, view_toks, cmp_toks):
 
 def make_case(rng, kind=None, depth=None, with_aux=None, filters="random", balance_invariants=False):
     kind = kind or rng.choice(list(KINDS))
+    if kind == "selftarget":
+        return make_selftarget_case(rng, depth)
     target, meta = KINDS[kind](rng)
     aux = None
     if kind == "router":
@@ -224,6 +236,37 @@ def make_case(rng, kind=None, depth=None, with_aux=None, filters="random", balan
     return c
 
 
+RESERVED_PREFIXES = ("test_", "check_", "prove_", "invariant_")
+
+
+def make_selftarget_case(rng, depth=None):
+    K = 9
+    names = rng.choice([("setUpperBound", "bumpNonce"), ("setUpdater", "touch"), ("setBound", "setUpgradeDelay")])
+    breaker = Fn(names[0], [("x", U)], arg(0) + [5, "SSTORE", "STOP"])
+    other = Fn(names[1], [], [6, "SLOAD", 1, "ADD", 6, "SSTORE", "STOP"]) if not names[1].startswith("setUp") else Fn(names[1], [("d", U)], arg(0) + [7, "SSTORE", "STOP"])
+    invs = [Fn("invariant_bound", [], [5, "SLOAD", K, "EQ", "@bad", "JUMPI", "STOP", ":bad"] + panic(1))]
+    order = [breaker, other] if rng.random() < 0.5 else [other, breaker]
+    fns = [Fn("setUp", [], ["STOP"])] + order + invs
+    c = Case2()
+    c.target, c.aux, c.meta, c.kind, c.invs = None, None, dict(kind="selftarget", consts=[K]), "selftarget", invs
+    c.filters = {"targetContracts": [foundry.TEST]}
+    if rng.random() < 0.3:
+        c.filters["excludeSenders"] = [0xCAFE]
+    f = c.filters
+    fns.append(Fn("targetSenders", [], abi_array_return(f.get("targetSenders", [])), mutability="view", outputs=[("array", ADDR, None)]))
+    fns.append(Fn("excludeSenders", [], abi_array_return(f.get("excludeSenders", [])), mutability="view", outputs=[("array", ADDR, None)]))
+    fns.append(Fn("targetContracts", [], abi_array_return(f.get("targetContracts", [])), mutability="view", outputs=[("array", ADDR, None)]))
+    fns.append(Fn("excludeContracts", [], abi_array_return([]), mutability="view", outputs=[("array", ADDR, None)]))
+    fns.append(Fn("targetSelectors", [], fuzz_selectors_return([]), mutability="view"))
+    fns.append(Fn("excludeSelectors", [], fuzz_selectors_return([]), mutability="view"))
+    c.test = A.ContractSpec("InvTest", fns, filename="InvTest.sol")
+    c.contracts = {foundry.TEST: c.test}
+    c.others = []
+    c.dynamic = {}
+    c.depth = depth if depth is not None else rng.choice([1, 1, 2])
+    return c
+
+
 def subset(rng, xs, nonempty=True):
     xs = list(xs)
     while True:
@@ -301,6 +344,8 @@ def allowed(c):
                 ok = fn.selector not in xsel[a]
             else:
                 ok = fn.mutability not in ("view", "pure")
+                if a == foundry.TEST and (fn.sig.startswith(RESERVED_PREFIXES) or fn.sig in ("setUp()", "afterInvariant()")):
+                    ok = False  # reserved functions of the test contract are never called as targets
             if ok:
                 fns.append((a, fn))
     ts = set(f.get("targetSenders", []))
